@@ -404,7 +404,7 @@ def run(R, ctx):
     R.explanation = (
         "Event-order rules on both scope-tracking visitors (Lua's lexical scoping as ordering constraints between push/insert/visit/pop), a complete "
         "classification of identifier slots of the AST type graph with what may and may not reach the renaming callbacks, and guard rules on name "
-        "generation and recycling. Decides the scoping discipline the renamer relies on; does not decide pool/global interactions when detection is off."
+        "generation and recycling. Decides the scoping discipline the renamer relies on; does not decide pool/global interactions when detection is off. Decision / transfer functions among these are decided by finite-domain evaluation of their typed tree (sa/peval.py): every point of a small abstract domain is evaluated and compared with the reference; nothing is sampled and no program input exists."
     )
     R.assumptions += ["Lua 5.1 manual 2.6 (visibility rules) and 2.1 (reserved words) as reference", "coverage per (ADT, slot), not path-sensitive"]
     order(R, ctx)
